@@ -25,6 +25,14 @@ func usage() {
 }
 
 func main() {
+	// debugging aid: LLGOVERIF_OVERLAY=/repo/path.go=/tmp/replacement.go analyses the replacement instead
+	if ov := os.Getenv("LLGOVERIF_OVERLAY"); ov != "" {
+		if a, b, ok := strings.Cut(ov, "="); ok {
+			if data, err := os.ReadFile(b); err == nil {
+				overlay = map[string][]byte{a: data}
+			}
+		}
+	}
 	if len(os.Args) < 2 {
 		usage()
 	}
@@ -60,6 +68,31 @@ func main() {
 	case "selftest":
 		ids := os.Args[2:]
 		os.Exit(selftest(ids))
+	case "neutral":
+		os.Exit(neutral(os.Args[2:]))
+	case "record-names":
+		// records the local-variable names of every function the checks load (all tiers) into localnames.json
+		recordNames = true
+		os.Remove(nameTablePath())
+		ids := make([]string, 0, len(registry))
+		for id := range registry {
+			ids = append(ids, id)
+		}
+		sort.Strings(ids)
+		for _, id := range ids {
+			for _, tier := range []string{"quick", "thorough"} {
+				if _, _, err := runOnly(id, tier); err != nil {
+					fmt.Println("record-names:", id, tier, err)
+					os.Exit(1)
+				}
+			}
+		}
+		if err := writeRecordedNames(); err != nil {
+			fmt.Println(err)
+			os.Exit(1)
+		}
+		fmt.Printf("recorded %d functions\n", len(recorded))
+		os.Exit(0)
 	default:
 		usage()
 	}
